@@ -49,6 +49,11 @@ func (c05) Gen(seed uint64, run int, tier string) *Plan {
 			p.Actions = append(p.Actions, Action{Kind: "task", B: d, D: r.Intn(500), A: r.Intn(4)})
 		case x < 40:
 			p.Actions = append(p.Actions, Action{Kind: "checkin", B: d})
+		case x < 44 && p.Knobs["pivot"] == 1:
+			// an operator tasks the pivot child while its parent reports that the pipe to it is gone
+			// (the operator's goroutine gets no CPU for a while somewhere in between); the child
+			// comes back afterwards and the usual questions are asked about the id that was issued
+			p.Actions = append(p.Actions, Action{Kind: "unlink-race", D: r.Intn(1 << 30)})
 		case x < 50 && p.Policy.Name != "atomic":
 			// an operator issues a task to the agent at the moment the final callback of another of
 			// its tasks is processed (issue and retire both rewrite the agent's list of outstanding ids)
@@ -161,6 +166,35 @@ func (c05) Exec(p *Plan, dir string) *Result {
 			w.Sim.Settle()
 			ag.issued = append(ag.issued, rid)
 			res.FP("task")
+		case "unlink-race":
+			if !pivot || len(ags) < 2 || ags[1].parent == nil || ags[1].dead || ags[0].dead {
+				continue
+			}
+			ch, par := ags[1], ags[0]
+			taskN++
+			nrid := uint32(0x0d000000 + taskN)
+			wit.Task(ch.d.NameID(), fmt.Sprintf("%08x", nrid), world.CmdSleep, "sleep", map[string]any{"Arguments": "4;1"})
+			w.Sim.RunSteps(uint64(a.D % 260))
+			stalled := w.Sim.StallRunnable()
+			var pb world.PB
+			pb.Int32(world.PivotSMBDisconnect).Int32(1).Int32(ch.d.ID)
+			par.d.Out = append(par.d.Out, world.Pkg{Cmd: world.CmdPivot, RID: 0, Body: pb.B})
+			pk := par.d.Out
+			par.d.Out = nil
+			c1 := w.Send(world.AgentReq{Port: par.d.Port, URI: par.d.URI, Headers: par.d.Hdrs, Peer: par.d.Peer, Body: par.d.Frame(pk)})
+			w.Sim.Settle()
+			w.Sim.Release(stalled)
+			w.Sim.Settle()
+			w.Route(par.d, w.Absorb(par.d, c1))
+			// the child links up again through the same parent
+			var cb world.PB
+			cb.Int32(world.PivotSMBConnect).Int32(1).Bytes(ch.d.InitPacket())
+			par.d.Out = append(par.d.Out, world.Pkg{Cmd: world.CmdPivot, RID: 0, Body: cb.B})
+			checkin(par)
+			ch.issued = append(ch.issued, nrid)
+			wit.Pump()
+			res.Probe("task-racing-unlink")
+			res.FP("unlink-race")
 		case "race":
 			o := outstanding(ag, true, false)
 			if len(o) == 0 || ag.parent != nil || len(ag.d.Children) > 0 {
